@@ -287,6 +287,9 @@ type WSCtx struct {
 	Anon  bool    `json:"anon"`
 	Sec   *string `json:"sec"`
 	Attrs []WAttr `json:"attrs"` // [name, JV]
+	// Legacy: build through the old user JSON schema (no "kind" property), which alone admits an
+	// empty key; the model only sees the resulting context.
+	Legacy bool `json:"legacy,omitempty"`
 }
 
 // WAttr marshals as the two-element array [name, value].
@@ -319,9 +322,12 @@ type WCtx struct {
 func (w *WSCtx) attrs() []WAttr { return w.Attrs }
 
 func (w *WSCtx) build() ldcontext.Context {
-	if w.Sec != nil {
+	if w.Sec != nil || w.Legacy {
 		// The secondary meta-attribute can only be set by unmarshalling the old user schema.
-		m := map[string]any{"key": w.Key, "secondary": *w.Sec, "anonymous": w.Anon}
+		m := map[string]any{"key": w.Key, "anonymous": w.Anon}
+		if w.Sec != nil {
+			m["secondary"] = *w.Sec
+		}
 		if w.Name != nil {
 			m["name"] = *w.Name
 		}
@@ -372,7 +378,7 @@ func (w *WCtx) build() ldcontext.Context {
 }
 
 func dumpSCtx(c ldcontext.Context) WSCtx {
-	w := WSCtx{Kind: string(c.Kind()), Key: c.Key(), Anon: c.Anonymous(), Attrs: []WAttr{}}
+	w := WSCtx{Kind: string(c.Kind()), Key: c.Key(), Anon: c.Anonymous(), Attrs: []WAttr{}, Legacy: c.Key() == ""}
 	if n := c.Name(); n.IsDefined() {
 		s := n.StringValue()
 		w.Name = &s
